@@ -26,11 +26,19 @@ func (c *Ctx) wrapKey(k *Term) *Term {
 	}
 	kk := c.keySort(ks)
 	fn := "key!" + sanitize(string(ks))
+	un := "unkey!" + sanitize(string(ks))
 	if _, ok := c.declared[fn]; !ok {
 		c.declareFun(fn, []Sort{ks}, kk)
-		un := "unkey!" + sanitize(string(ks))
 		c.declareFun(un, []Sort{kk}, ks)
+		// key! is a bijection between the array values and the key sort
 		c.asserts = append(c.asserts, &Assertion{Seq: 0, Text: fmt.Sprintf("(forall ((ka %s)) (! (= (%s (%s ka)) ka) :pattern ((%s ka))))", ks, un, fn, fn)})
+		c.asserts = append(c.asserts, &Assertion{Seq: 0, Text: fmt.Sprintf("(forall ((kk %s)) (! (= (%s (%s kk)) kk) :pattern ((%s kk))))", kk, fn, un, un)})
+	}
+	if pre := "(" + un + " "; strings.HasPrefix(k.S, pre) && strings.HasSuffix(k.S, ")") {
+		inner := k.S[len(pre) : len(k.S)-1]
+		if !strings.ContainsAny(inner, " ()") {
+			return mk(kk, inner) // key!(unkey!(q)) = q
+		}
 	}
 	return app(kk, fn, k)
 }
